@@ -373,6 +373,62 @@ pub fn dispatch(f: &[&str]) -> String {
             let outs: Vec<String> = hs.into_iter().map(|h| h.join().unwrap_or_else(|_| "PANIC thread".to_string())).collect();
             outs.join(" ||| ")
         }
+        // ---- C15: locations
+        "parse_locs" | "push_locs" => {
+            // parse text (whole, or one byte at a time through ParsePartialResult) and print every node with its location:
+            // K<kind> line col uline ucol <payload hex>; lists as L ... ( children )
+            use chialisp::compiler::sexp::{parse_sexp, ParsePartialResult, SExp};
+            use chialisp::compiler::srcloc::Srcloc;
+            let text = hex::decode(f[1]).unwrap();
+            let start = Srcloc::start("*verif*");
+            let res = if f[0] == "parse_locs" {
+                parse_sexp(start, text.iter().copied())
+            } else {
+                let mut p = ParsePartialResult::new(start);
+                let mut err = None;
+                for b in text.iter() {
+                    if let Err(e) = p.push(*b) {
+                        err = Some(e);
+                        break;
+                    }
+                }
+                match err {
+                    Some(e) => Err(e),
+                    None => p.finalize(),
+                }
+            };
+            fn loc(l: &Srcloc) -> String {
+                match &l.until {
+                    Some(u) => format!("{} {} {} {}", l.line, l.col, u.line, u.col),
+                    None => format!("{} {} - -", l.line, l.col),
+                }
+            }
+            fn show(v: &SExp, out: &mut String) {
+                match v {
+                    SExp::Nil(l) => out.push_str(&format!("[N {}]", loc(l))),
+                    SExp::Integer(l, i) => out.push_str(&format!("[I {} {}]", loc(l), i)),
+                    SExp::QuotedString(l, q, b) => out.push_str(&format!("[Q {} {:02x} {}]", loc(l), q, hex::encode(b))),
+                    SExp::Atom(l, b) => out.push_str(&format!("[A {} {}]", loc(l), hex::encode(b))),
+                    SExp::Cons(l, a, b) => {
+                        out.push_str(&format!("[C {} ", loc(l)));
+                        show(a, out);
+                        show(b, out);
+                        out.push(']');
+                    }
+                }
+            }
+            match res {
+                Ok(forms) => {
+                    let mut out = String::from("OK ");
+                    for fm in forms.iter() {
+                        show(fm, &mut out);
+                        out.push(' ');
+                    }
+                    out
+                }
+                Err(e) => format!("ERR {} | {}", loc(&e.0), e.1.replace(['\n', '\t'], " ")),
+            }
+        }
         other => format!("BADOP {}", other),
     }
 }
